@@ -24,7 +24,21 @@ let bytes_of_string (s : string) : Sqmodel.n list =
 
 let string_of_bytes (l : Sqmodel.n list) : string =
   let b = Buffer.create 1024 in
-  List.iter (fun x -> Buffer.add_char b (Char.chr (int_of_n x land 255))) l;
+  List.iter (fun x ->
+      let c = int_of_n x in
+      if c < 128 then Buffer.add_char b (Char.chr c)
+      else if c < 0x800 then begin
+        Buffer.add_char b (Char.chr (0xC0 lor (c lsr 6)));
+        Buffer.add_char b (Char.chr (0x80 lor (c land 0x3F))) end
+      else if c < 0x10000 then begin
+        Buffer.add_char b (Char.chr (0xE0 lor (c lsr 12)));
+        Buffer.add_char b (Char.chr (0x80 lor ((c lsr 6) land 0x3F)));
+        Buffer.add_char b (Char.chr (0x80 lor (c land 0x3F))) end
+      else begin
+        Buffer.add_char b (Char.chr (0xF0 lor (c lsr 18)));
+        Buffer.add_char b (Char.chr (0x80 lor ((c lsr 12) land 0x3F)));
+        Buffer.add_char b (Char.chr (0x80 lor ((c lsr 6) land 0x3F)));
+        Buffer.add_char b (Char.chr (0x80 lor (c land 0x3F))) end) l;
   Buffer.contents b
 
 let () =
@@ -34,7 +48,7 @@ let () =
      while true do
        let line = input_line ic in
        if String.length line > 0 && line.[0] <> '%' then begin
-         let out = Sqmodel.run_case (bytes_of_string line) in
+         let out = Sqmodel.run_case2 (bytes_of_string line) in
          if out <> [] then begin
            output_string oc (string_of_bytes out);
            output_char oc '\n'
